@@ -236,6 +236,8 @@ class PointStore(object):
         if name == "PreprocessorError":
           from metric_learn.exceptions import PreprocessorError
           raise PreprocessorError(RuntimeError("simulated store failure"))
+        if len(self.calls) % 3 == 0:
+          raise EXC_TYPES[name]()       # an exception that carries no arguments (bare raise KeyError, failing assert)
         raise EXC_TYPES[name]("simulated store failure #%d" % k)
     out = self.X[ind]
     if self.mixed and out.dtype.kind == "f" and out.size and np.all(out == np.round(out)) \
@@ -471,6 +473,43 @@ class PinvhSeam(object):
 
   def __exit__(self, *exc):
     self.sl.pinvh = self.orig
+    return False
+
+
+class UtilEighSeam(object):
+  """scipy.linalg.eigh as bound in metric_learn/_util.py (the decomposition of an array
+  prior / init and of the covariance): in fault mode its first call raises LinAlgError
+  (LAPACK's "eigenvalues did not converge").  A fit that propagates the error promises
+  nothing; a fit that *returns* must have done what the option means all the same - in
+  particular it must not have accepted a matrix it would otherwise refuse."""
+
+  def __init__(self, fail_first=False):
+    self.fail_first = fail_first
+    self.fired = 0
+    self.calls = 0
+    self.missing = False
+
+  def __enter__(self):
+    import metric_learn._util as mu
+    self.mu = mu
+    self.orig = getattr(mu, "eigh", None)
+    if self.orig is None:
+      self.missing = True
+      return self
+    seam = self
+
+    def eigh(*a, **k):
+      seam.calls += 1
+      if seam.fail_first and seam.calls == 1:
+        seam.fired += 1
+        raise np.linalg.LinAlgError("simulated: eigenvalues did not converge")
+      return seam.orig(*a, **k)
+    mu.eigh = eigh
+    return self
+
+  def __exit__(self, *exc):
+    if not self.missing:
+      self.mu.eigh = self.orig
     return False
 
 
